@@ -127,6 +127,10 @@ class IClass:
         return f"<iclass {self.name}>"
 
 
+class HarnessIncomplete(SymError):
+    """the proof harness does not supply something the code under contract reads (undecided, never a violation)"""
+
+
 class IObj:
     _counter = [0]
 
@@ -1196,6 +1200,42 @@ class Interp:
             return obj.fvc_setitem(self, key, value)
         raise SymError("item assignment on " + type(obj).__name__)
 
+    def _allocated_default(self, obj, name):
+        """an object the harness allocated without running its constructor (ctx.alloc) is read at an attribute the harness did
+        not supply: use what the real constructor would have put there when that is a state-free default - a dataclass field
+        default / factory, or a top-level `self.<name> = <empty or constant literal>` of __post_init__ / __init__.  Anything
+        else means the contract's frame does not cover this attribute: harness-incomplete (undecided), never a violation."""
+        for fname, kind, payload in obj.cls.all_fields():
+            if fname == name and kind == "default":
+                obj.attrs[name] = payload
+                return payload
+            if fname == name and kind == "factory":
+                obj.attrs[name] = self.call(payload, [], {})
+                return obj.attrs[name]
+        for ctor in ("__post_init__", "__init__"):
+            try:
+                f = obj.cls.lookup(ctor)
+            except KeyError:
+                continue
+            if not isinstance(f, IFunc):
+                continue
+            selfname = f.node.args.args[0].arg if f.node.args.args else "self"
+            for st in f.node.body:
+                if isinstance(st, ast.Assign) and len(st.targets) == 1:
+                    t, val = st.targets[0], st.value
+                elif isinstance(st, ast.AnnAssign) and st.value is not None:
+                    t, val = st.target, st.value
+                else:
+                    continue
+                if not (isinstance(t, ast.Attribute) and isinstance(t.value, ast.Name) and t.value.id == selfname and t.attr == name):
+                    continue
+                state_free = (isinstance(val, ast.Constant) or (isinstance(val, (ast.Dict, ast.List, ast.Set, ast.Tuple)) and not (getattr(val, "keys", None) or getattr(val, "elts", None)))
+                              or (isinstance(val, ast.Call) and isinstance(val.func, ast.Name) and val.func.id in ("dict", "list", "set") and not val.args and not val.keywords))
+                if state_free:
+                    obj.attrs[name] = self.eval(val, Env(f.env), f.module)
+                    return obj.attrs[name]
+        raise HarnessIncomplete(f"the harness allocated a {obj.cls.name} without the attribute '{name}' that the code reads")
+
     def getattr(self, obj, name):
         if isinstance(obj, LazyModule):
             obj = obj.get()
@@ -1205,6 +1245,8 @@ class Interp:
             try:
                 v = obj.cls.lookup(name)
             except KeyError:
+                if getattr(obj, "allocated", False):
+                    return self._allocated_default(obj, name)
                 raise IRaise(AttributeError(f"'{obj.cls.name}' object has no attribute '{name}'"))
             if isinstance(v, IFunc) and not v.is_static:
                 return IBound(v, obj)
